@@ -75,6 +75,10 @@ func isStrongNonNil(pr *Prover, v ssa.Value, b *ssa.BasicBlock) bool {
 			if pr.p.aggFieldStrongNonNil(x) {
 				return true
 			}
+			// a captured interface variable that only ever holds usable values
+			if fv, ok := x.X.(*ssa.FreeVar); ok && x.Op == token.MUL && pr.p.freeCellNonNil(fv) {
+				return true
+			}
 		case *ssa.Parameter:
 			return pr.nnAssume[pr.key(v)]
 		case *ssa.Call:
